@@ -199,7 +199,16 @@ theorem C05_scale (c : Ctx ℝ) (s : ℝ) (hs : 0 < s) (g : Bool) (pi pj : Pulse
   unfold entryAlgo
   have e0 : (scalePulse s pj).s0.gnd = pj.s0.gnd := rfl
   have e1 : (scalePulse s pj).s1.gnd = pj.s1.gnd := rfl
-  have ef : f8Of (scalePulse s pi) (scalePulse s pj) = f8Of pi pj := rfl
+  have ef : f8Of (scalePulse s pi) (scalePulse s pj) = f8Of pi pj := by
+    unfold f8Of
+    have hl : ((scalePulse s pi).s0.len == (scalePulse s pj).s0.len) = (pi.s0.len == pj.s0.len) := by
+      show (s * pi.s0.len == s * pj.s0.len) = (pi.s0.len == pj.s0.len)
+      by_cases h : pi.s0.len = pj.s0.len
+      · simp [h]
+      · have : s * pi.s0.len ≠ s * pj.s0.len := fun e => h (mul_left_cancel₀ hs.ne' e)
+        simp [h, this]
+    simp only [hl]
+    rfl
   simp only [e0, e1, ef, C05_scale_entry c s hs]
   split
   · cx_unfold; simp only [Cx.mk.injEq]; constructor <;> ring
